@@ -108,6 +108,19 @@ def make_pok():
     return {'targets': [lambda: inst.m, lambda: inst.m, lambda: inst.m], 'roots': [inst, K, K.__dict__['m']], 'lazy': True}
 
 
+def make_pok2():
+    class K(object):
+        def __init__(self, impl):
+            self.impl = impl
+
+        @modifiers.kwoargs('flag')
+        @specifiers.forwards_to_method('impl')
+        def run(self, flag, *args, **kwargs):
+            return self.impl(*args, **kwargs)
+    a, b = K(inner), K(inner_two)
+    return {'targets': [lambda: a.run, lambda: b.run, lambda: a.run], 'roots': [a, b, K, K.__dict__['run']], 'lazy': True}
+
+
 def deco(func, d, *args, **kwargs):
     return func(*args, **kwargs)
 
@@ -131,6 +144,7 @@ SCENARIOS = {
     'fwrap': ('sigtools', 'inspect', 'sigtools'),
     'transform': ('sigtools', 'sigtools', 'inspect'),
     'pok': ('sigtools', 'sigtools', 'inspect'),
+    'pok2': ('sigtools', 'sigtools', 'inspect'),
     'decorator': ('sigtools', 'inspect', 'sigtools'),
 }
 FACTORY = {'mixed': 'wraps'}
@@ -225,10 +239,10 @@ def alone(scen, nthreads, perturb=None, root=None):
 
 
 def sequential_state(scen, nthreads):
-    """Attribute changes the same calls leave behind when run one after the other (lazy initialisation is not a race)."""
+    """Attribute changes the same calls leave behind when run one after the other, twice (lazy initialisation is not a race)."""
     bodies, fac = build(scen, nthreads)
     before = c16.reach(fac['roots'])
-    for b in bodies:
+    for b in list(bodies) + list(bodies):
         try:
             b()
         except BaseException:  # noqa
@@ -270,7 +284,17 @@ class Checker(object):
                                   for idx, tgt, (run, lbl) in pre]}},
                              {'cause': cause})
                 break
-        # quiescence
+        # quiescence: the same calls, run once more one after the other, must give the sequential answers
+        for i, b in enumerate(fac.get('_bodies', ())):
+            try:
+                r = ('ok', b())
+            except BaseException as e:  # noqa
+                r = ('raise', type(e).__name__, str(e)[:200])
+            if r != self.ref[i]:
+                st.violation('answer-after-quiescence-differs', case,
+                             {'scenario': self.scen, 'thread_body': i, 'after_quiescence': repr(r)[:300], 'alone': repr(self.ref[i])[:300],
+                              'schedule': case['preemptions']}, {})
+                break
         after = c16.reach(fac['roots'])
         probs = sorted(set(c16.diff_reach(fac['_before'], after)))
         if guard_size() != 0:
@@ -291,6 +315,7 @@ def shard(tier, sh):
     def make():
         bodies, fac = build(scen, nthreads)
         fac['_before'] = c16.reach(fac['roots'])
+        fac['_bodies'] = bodies
         return bodies, fac
     n = sched.explore(s, make, chk, bound, priorities=[tuple(prio)], first_range=(lo, hi), stats=st)
     st.inc('executions', n)
